@@ -7,7 +7,7 @@ import ast
 from ..core import Ctx, RuleResult, finding, short, walk_no_nested
 from ..model import AnalysisError, norm
 from ..mutants import Mut
-from ..rules import inv, prog, ret
+from ..rules import accum, inv, prog, ret
 from ..rules.defuse import DefUse
 from ..rules.util import callee_name, cfg_of, nodes_where
 from ..tables import INV_EXCEPTIONS
@@ -275,6 +275,7 @@ def run(ctx: Ctx):
         rule_pref_col_reset(ctx),
         rule_alphabet(ctx),
         rule_same_text(ctx),
+        accum.run_accum(p, "C10.9", "C10", floor=3),
     ]
 
 
